@@ -119,7 +119,7 @@ PROPS = {
         ],
     },
     'C01': {
-        'v_units': ['split', 'switch', 'phrase'],
+        'v_units': ['split', 'switch', 'phrase', 'dquote'],
         'k_units': ['splitk'],
         'level': 'other',
         'explanation': (
@@ -141,7 +141,12 @@ PROPS = {
             'field of the right list and an empty list is the unit, in all nine representation cases, with `other` left empty; and '
             'that Phrase::ifs_join ($*) yields the fields in order with the separator between every two of them and none at the ends '
             '(which character the separator is - the first of IFS, a space when IFS is unset, nothing when it is empty - is computed by '
-            'string code outside Verus\'s reach and ASSUMED). Not decided here: the remaining parameter-expansion modifiers (trim, '
+            'string code outside Verus\'s reach and ASSUMED). Unit dquote (Verus, yash-semantics/src/expansion/initial/word.rs): '
+            'double_quote puts every field of a phrase between two quoting double-quote characters and marks all its characters quoted, '
+            'values, origins and quoting marks unchanged, as many fields as before (one per positional parameter for "$@"); the DoubleQuote arm '
+            'of WordUnit::expand expands exactly its text, once, in a NON-splitting context (which is what makes "$*" join with IFS) and '
+            'restores the previous context afterwards - also when the expansion fails, also when double quotes are nested inside an expansion '
+            'inside double quotes; every other kind of word unit leaves the context alone. Not decided here: the remaining parameter-expansion modifiers (trim, '
             'length), nounset, quote removal, the read built-in, the lexer -- all of which run through async code over '
             'Env or through string iteration outside the verifier\'s subset; a change there is not seen by this check.'),
         'trusted_base': ['Verus 0.2026.09.13 + Z3', 'vstd iterator model (IteratorSpec: prophetic remaining())', '/verif/tools/vextract.py'],
@@ -152,6 +157,7 @@ PROPS = {
             'the reference splitter (contracts/v/split/prelude.rs) is the reading of XCU 2.6.5 the contract is stated against',
             'Phrase::append: `left.extend(right.drain(1..))` is checked as a call of a helper with that body and an assumed contract (rewrite rule tokens-to-helper); mem::replace has an assumed contract',
             'Phrase::ifs_join: the separator computation and the reserve_exact call are helper calls with assumed contracts; Vec::extend(Vec) appends the elements; VariableSet is a placeholder; a ghost entry snapshot and a proof block at the end of the loop body are spliced',
+            'unit dquote: expanding a text / text unit is an opaque call (async in the code) that records the context flag it ran with in a ghost log; single_quote, dollar_single_quote, tilde expansion, EscapedString::unquote are opaque; `for c in chars.iter_mut()` and `fields.iter_mut().for_each(f)` are checked as index loops; a vector holds fewer than usize::MAX - 2 elements (physical bound, assumed as an axiom); mem::replace and Vec::reserve_exact have assumed contracts',
         ],
     },
     'C04': {
